@@ -35,6 +35,16 @@ func nonNilSucc(b *ssa.BasicBlock, v ssa.Value) *ssa.BasicBlock {
 }
 
 func nonNilSuccOfCond(b *ssa.BasicBlock, cond ssa.Value, v ssa.Value) *ssa.BasicBlock {
+	// a helper that answers "was there an error" (`if listErrorReply(&output, err) { return }`): true iff its
+	// argument is non-nil
+	if call, isCall := cond.(*ssa.Call); isCall {
+		if g := call.Call.StaticCallee(); g != nil {
+			if idx, ok := nonNilPredicate(g); ok && idx < len(call.Call.Args) && sameNilSubject(call.Call.Args[idx], v) {
+				return b.Succs[0]
+			}
+		}
+		return nil
+	}
 	bo, ok := cond.(*ssa.BinOp)
 	if !ok || (bo.Op != token.EQL && bo.Op != token.NEQ) {
 		return nil
@@ -46,6 +56,73 @@ func nonNilSuccOfCond(b *ssa.BasicBlock, cond ssa.Value, v ssa.Value) *ssa.Basic
 		return b.Succs[1]
 	}
 	return b.Succs[0]
+}
+
+var nonNilPredMemo = map[*ssa.Function]int{}
+
+// nonNilPredicate: g has one boolean result, and that result is true exactly when its pointer parameter idx is non-nil
+// (the only branches on the way to a return test that parameter against nil).
+func nonNilPredicate(g *ssa.Function) (int, bool) {
+	if v, ok := nonNilPredMemo[g]; ok {
+		return v, v >= 0
+	}
+	nonNilPredMemo[g] = -1
+	if len(g.Blocks) == 0 || g.Signature.Results().Len() != 1 {
+		return -1, false
+	}
+	if b, ok := g.Signature.Results().At(0).Type().Underlying().(*types.Basic); !ok || b.Kind() != types.Bool {
+		return -1, false
+	}
+	for idx, p := range g.Params {
+		if _, isPtr := p.Type().Underlying().(*types.Pointer); !isPtr {
+			continue
+		}
+		eval := func(assumeNil bool) (bool, bool) {
+			blk, prev := g.Blocks[0], (*ssa.BasicBlock)(nil)
+			for steps := 0; steps < 32; steps++ {
+				switch t := blk.Instrs[len(blk.Instrs)-1].(type) {
+				case *ssa.Return:
+					r := t.Results[0]
+					if phi, ok := r.(*ssa.Phi); ok && phi.Block() == blk && prev != nil {
+						for i, pb := range blk.Preds {
+							if pb == prev {
+								r = phi.Edges[i]
+							}
+						}
+					}
+					if k, ok := r.(*ssa.Const); ok && k.Value != nil {
+						return k.Value.String() == "true", true
+					}
+					return false, false
+				case *ssa.If:
+					nn := nonNilSuccOfCond(blk, t.Cond, p)
+					if nn == nil {
+						return false, false
+					}
+					next := nn
+					if assumeNil {
+						next = blk.Succs[0]
+						if next == nn {
+							next = blk.Succs[1]
+						}
+					}
+					prev, blk = blk, next
+				case *ssa.Jump:
+					prev, blk = blk, blk.Succs[0]
+				default:
+					return false, false
+				}
+			}
+			return false, false
+		}
+		whenNil, ok1 := eval(true)
+		whenSet, ok2 := eval(false)
+		if ok1 && ok2 && !whenNil && whenSet {
+			nonNilPredMemo[g] = idx
+			return idx, true
+		}
+	}
+	return -1, false
 }
 
 // singleStoreCell: the local variable cell a load reads from, when that variable is assigned exactly once (a variable
@@ -215,11 +292,6 @@ func ruleTypedNil(c *Ctx) {
 						continue
 					}
 					v := ret.Results[i]
-					if isNilConst(v) {
-						// an explicit nil is only interesting when an error/ok result does not accompany it;
-						// callers are expected to test the companion value — treat as nilable too
-						continue
-					}
 					// a nil that travels together with a non-nil error result is the callee's way of reporting
 					// failure; callers test the error (WRONGTYPE) — not this rule's business
 					withErr := false
@@ -232,12 +304,21 @@ func ruleTypedNil(c *Ctx) {
 							if !isAgg(o.Type()) && (knownNonNilIn(o, b) || sameBlockGuardBlock(o, b)) {
 								withErr = true
 							}
+						case *types.Basic:
+							// a failure flag set beside the nil (`wrongType = true; return`)
+							for _, leaf := range phiLeaves(o, map[ssa.Value]bool{}) {
+								if k, ok := leaf.(*ssa.Const); ok && k.Value != nil && k.Value.String() == "true" && len(phiLeaves(o, map[ssa.Value]bool{})) == 1 {
+									withErr = true
+								}
+							}
 						}
 					}
 					if withErr {
 						continue
 					}
-					if nm.nilableSource(v, map[ssa.Value]bool{}) && !knownNonNilIn(v, b) {
+					// an explicit nil without a failure report beside it (`return nil, nil` for a missing key) is the same
+					// nilable result as a named result left at its zero value
+					if isNilConst(v) || (nm.nilableSource(v, map[ssa.Value]bool{}) && !knownNonNilIn(v, b)) {
 						if nm.nilRet[fn] == nil {
 							nm.nilRet[fn] = map[int]bool{}
 						}
